@@ -257,3 +257,14 @@ def AS(obj, clsname: str):
             return V.Obj(cls, False, obj.ref, None, CTX)
         return obj
     return obj
+
+
+def OPT_ALL(opt, pred):
+    """`opt is None or pred(opt)` for an Optional value."""
+    if smt():
+        if opt is None:
+            return True
+        if isinstance(opt, V.OptV):
+            return OR(_b(opt.is_none), pred(opt.val))
+        return pred(opt)
+    return opt is None or bool(pred(opt))
